@@ -73,7 +73,8 @@ theorem inv_convert {r : Nat} {f0 g : List (Path × PObj)} {p : Path} {o : OldPr
     (hclean : (targets f0).Nodup) (hnd : (g.map (·.1)).Nodup) (hinv : Inv r f0 g)
     (hp : (p, PObj.old o) ∈ g) :
     (createAll (g.filter (·.1 != p)) (converted r p o)).2 = none ∧
-    Inv r f0 (g.filter (·.1 != p) ++ converted r p o) := by
+    Inv r f0 (g.filter (·.1 != p) ++ converted r p o) ∧
+    nameTaken g (converted r p o) = false := by
   have hnd0 := clean_paths_nodup hclean
   have hp0 : (p, PObj.old o) ∈ f0 := hinv.oldFrom p o hp
   -- nothing sits at the extra paths of `p` yet
@@ -93,7 +94,16 @@ theorem inv_convert {r : Nat} {f0 g : List (Path × PObj)} {p : Path} {o : OldPr
     obtain ⟨e, he, rfl⟩ := List.mem_map.mp hx
     have := mem_filter_ne.mp he
     exact ⟨List.mem_map.mpr ⟨e, this.1, rfl⟩, this.2⟩
-  refine ⟨?_, ?_⟩
+  refine ⟨?_, ?_, ?_⟩
+  rotate_left 2
+  · unfold nameTaken
+    rw [List.any_eq_false]
+    intro e he hh
+    have hx := converted_tail_paths r p o e he
+    unfold hasPath at hh
+    simp only [List.any_eq_true, beq_iff_eq] at hh
+    obtain ⟨y, hy, hye⟩ := hh
+    exact hA e.1 hx (List.mem_map.mpr ⟨y, hy, hye⟩)
   · apply createAll_succeeds
     rw [List.nodup_append]
     refine ⟨filter_paths_nodup p hnd, (clean_extras_nodup hclean hp0).sublist (converted_paths_sublist r p o), ?_⟩
